@@ -8,14 +8,25 @@ Release(apt-ftparchive), Release(dak):
   R  "records":  one structured field present, its record list enumerated exhaustively (all single records; all
                  pairs / triples over a reduced record alphabet that keeps every size-width combination);
   H  "histories": dump - edit - dump on ONE object, for every structured field of every class configuration: the field
-                 (two initial record lists) and its table neighbour are present; the object is built from records or
-                 parsed from text and dumped; then every sequence of up to 2 (thorough: 3) applicable edits is applied,
+                 (two initial record lists, thorough: three) and its table neighbour are present; the object is built from
+                 records or parsed from text (thorough: also column-aligned text and text with the first record on the header line) and dumped; then every sequence of up
+                 to 2 (thorough: 4) applicable edits is applied,
                  with a dump after each edit: in place on the record list (append a record whose size is longer than all
                  present, delete the record with the longest size, set a record's 'size' longer / shorter, extend by two
                  records, replace a record), re-assign the field, delete the field, switch Release.size_field_behavior,
                  and append to / delete the neighbour field.  The last dump of every history must re-parse to the edited
                  records, be aligned to the width computed from the records held NOW (and the behaviour set NOW), and a
                  further dump must give the same text and leave the records as edited.
+
+  F  "forms":    S/R/H hand the text to the constructor as one str.  The constructor documents "a string, or any object that
+                 returns a line of input each time, normally a file" and an encoding "when parsing strings": for every class
+                 configuration x 3 field subsets (one field, all, a scattered few) x 2 record counts the same text is handed
+                 over as str, UTF-8 bytes, list / tuple of lines with and without their newlines, list of bytes lines,
+                 generator of str / of bytes lines, io.StringIO, io.BytesIO, a text-mode file object (TextIOWrapper, has
+                 .encoding), the sequence= keyword (str, list, generator, BytesIO), bytes / BytesIO / bytes lines in another 8-bit encoding with encoding=,
+                 and as the first of two paragraphs of cls.iter_paragraphs(str / lines / BytesIO).  Each form goes through
+                 the same executor and oracle as S; on top, its dump() must be the text the str form dumps, and dump(fd) to a
+                 binary and to a text file object must write exactly that text.
 
 Every S/R input is run in several directions: built through the API (assign a list of dicts / a single mapping) or
 parsed from text (tight, column-aligned, first record on the header line, single-line, and for pdiff the natural
@@ -26,6 +37,7 @@ parsed records == generated records; dump() does not raise; cls(dump()) has the 
 for Release/PdiffIndex each record is written as hash + " " + size.rjust(W) + " " + rest with W = 16
 (apt-ftparchive) or the longest size in that field (dak, pdiff).
 """
+import io
 import itertools
 
 from .. import core
@@ -39,7 +51,9 @@ RULE = ("inputs = (class configuration, set of structured fields present, record
         "histories on one object (Engine A): a state is the sequence of edits applied since construction (mirrored on a "
         "plain-list model of the records), a transition one edit followed by dump(), a trace one complete history "
         "(construct, dump, edit, dump, ... , dump twice) replayed from scratch on the real class; every prefix of a history "
-        "is a case of its own, so only the last dump of a history is compared; non-trivial = at least one edit")
+        "is a case of its own, so only the last dump of a history is compared; non-trivial = at least one edit.  Family F: "
+        "one more choice below (class, subset, record count): the form in which the text reaches the constructor; one state / "
+        "transition / trace per (paragraph, form), non-trivial by the S rule")
 BUDGET = {"quick": 240, "thorough": 3000}
 
 # ---- the documented sub-field names (display spelling of the field, sub-field names in line order)
@@ -83,19 +97,28 @@ def bounds(tier):
                           "PdiffIndex": "all 2^14 subsets" if tier == "thorough" else
                           "all subsets of size <= 3 and >= 11 (covers every present/absent combination of any 3 fields) + "
                           "every product {SHA1,SHA256}-subset x role-subset (%d subsets in all)" % len(pdiff_subsets("quick"))},
-            "S_records_per_field": "1, 2, 3 (rotating tokens/sizes)",
+            "S_records_per_field": "1, 2, 3 (rotating tokens/sizes)" if tier == "quick" else
+                                   "1, 2, 3 in two rotations of the tokens/sizes, and 4 (7 record lists per field and subset)",
             "S_directions": DIRS_ANY + ["text-natural (pdiff: *-Current single-line)"] + DIRS_ONE,
             "R_record_lists": "length 1: all records over 4 tokens x 3 sizes per sub-field; length 2: all ordered pairs over %s; "
                               "length 3: all triples over %s" % (
                                   ("12 records (4 tokens x 3 sizes)", "6 records (2 tokens x 3 sizes)") if tier == "quick" else
-                                  ("24 records (4 x 3 x 2: independent hash/rest tokens)", "12 records (4 tokens x 3 sizes)")),
+                                  ("24 records (4 x 3 x 2: independent hash/rest tokens)", "the same 24 records; length 4: all "
+                                   "quadruples over 6 records (2 tokens x 3 sizes)")),
             "R_directions": DIRS_R + DIRS_ONE,
             "H_histories": {"edited_field": "every structured field of every class configuration (34), its table neighbour also present",
-                            "initial_records": "sizes of (1, 2) digits; of (17, 1) digits", "directions": H_DIRS,
+                            "initial_records": "sizes of (1, 2) digits; of (17, 1) digits" + ("; of (2, 2, 1) digits" if tier == "thorough" else ""),
+                            "directions": H_DIRS[tier],
                             "edits": H_OPS, "depth": "all sequences of 0..%d applicable edits" % H_DEPTH[tier],
                             "checked": "last dump of each history: re-parse == edited records, absent fields absent, "
                                        "alignment from the current records and behaviour, second dump identical, object's "
                                        "records as edited"},
+            "F_input_forms": {"forms": FORMS, "paragraphs": "each class configuration x field subsets {first field; all; "
+                              "fields 2 and 4 (pdiff: SHA1-Current + SHA256-Patches + X-Unmerged-SHA256-Download)} x 2 or 3 records "
+                              "per field (pdiff *-Current: single-line)",
+                              "checked": "as S (records, dump, re-parse, alignment) + dump() identical to the str form's + "
+                                         "dump(BytesIO) / dump(StringIO, text_mode=True) write that text",
+                              "other_encoding": "first of %s that can write the tokens" % OTHER_ENCODINGS},
             "tokens": "a, bb, x/y.z, e-acute (seed rotates representatives)", "sizes": "1, 22, 17 digits"}
 
 
@@ -114,7 +137,15 @@ def assumptions():
             "not touched by H",
             "re-parsed records are compared as records: a single-line field re-read as one mapping counts as the list of that one record",
             "seed rotates token representatives and the spelling (case) of the field names; both are equivalent for a "
-            "case-insensitive, whitespace-splitting implementation"]
+            "case-insensitive, whitespace-splitting implementation",
+            "family F: the forms are the input kinds the Deb822 constructor documents (str, bytes, any iterable of str or "
+            "bytes lines, file objects; encoding= for bytes input).  'lines without newline' are the text split at '\\n'.  With "
+            "encoding=E the bytes are the text encoded in E and dump(fd) in binary mode must write the text encoded in E (the "
+            "documented default of dump: 'the encoding the object was initialized with').  NOT a form of the check: a mapping "
+            "that already holds record lists - cls(other_paragraph), paragraph.copy() and cls({'Files': [records]}) raise "
+            "AttributeError ('list' object has no attribute 'splitlines') for every class of this property on the unchanged "
+            "library, because _multivalued.__init__ expects the raw string value of each structured field; the statement "
+            "says nothing about copying a paragraph, so this is reported to the maintainers of the check, not demanded"]
 
 
 # ------------------------------------------------------------------------------------------------ symbols
@@ -180,12 +211,21 @@ def record_lists(nsub, tier, seed):
     if tier == "thorough":
         wide = [[(s if j == 1 else (t if j == 0 else u)) for j in range(nsub)]
                 for t in toks for s in sizes for u in (toks[1], toks[2])]
-        pairs, triples = wide, diag
+        pairs, triples = wide, wide
     else:
         pairs, triples = diag, small
     out += [[a, b] for a in pairs for b in pairs]
     out += [[a, b, c] for a in triples for b in triples for c in triples]
+    if tier == "thorough":
+        out += [[a, b, c, d] for a in small for b in small for c in small for d in small]
     return out
+
+
+def s_lists(tier):
+    """family S: (records per field, rotation shift of the tokens/sizes) of the record lists every subset is run with"""
+    if tier == "quick":
+        return [(1, 0), (2, 0), (3, 0)]
+    return [(1, 0), (2, 0), (3, 0), (1, 2), (2, 2), (3, 2), (4, 1)]
 
 
 # ------------------------------------------------------------------------------------------------ units
@@ -201,21 +241,31 @@ def units(tier, seed):
             out.append({"family": "S", "cls": cname, "beh": beh, "subsets": subs[i:i + S_CHUNK]})
     for cname, beh in CONFIGS:
         for fi in range(len(TABLE[cname])):
-            for length in (1, 2, 3):
+            for length in ((1, 2, 3) if tier == "quick" else (1, 2, 3, 4)):
                 out.append({"family": "R", "cls": cname, "beh": beh, "field": fi, "length": length})
     for cname, beh in CONFIGS:
         for fi in range(len(TABLE[cname])):
-            out.append({"family": "H", "cls": cname, "beh": beh, "field": fi})
+            if tier == "quick":
+                out.append({"family": "H", "cls": cname, "beh": beh, "field": fi})
+            else:       # one unit per (initial record list, direction): a depth-4 tree is minutes of work
+                for init in range(H_INITIALS[tier]):
+                    for d in H_DIRS[tier]:
+                        out.append({"family": "H", "cls": cname, "beh": beh, "field": fi, "init": init, "dir": d})
+    for cname, beh in CONFIGS:
+        out.append({"family": "F", "cls": cname, "beh": beh})
     return out
 
 
 def unit_cost(u, tier):
     if u["family"] == "S":
-        return sum(len(s) + 1 for s in u["subsets"]) * 8
+        return sum(len(s) + 1 for s in u["subsets"]) * 8 * len(s_lists(tier)) // 3
     if u["family"] == "H":
-        return 4 * (13 ** H_DEPTH[tier]) * 6
+        return (1 if "init" in u else 4) * (11 ** H_DEPTH[tier]) * 6
+    if u["family"] == "F":
+        return 6 * len(FORMS) * 40
     nsub = len(TABLE[u["cls"]][u["field"]][1])
-    return {1: 3 * 4 ** (nsub - 1), 2: 144 if tier == "quick" else 576, 3: 216 if tier == "quick" else 1728}[u["length"]] * 5
+    return {1: 3 * 4 ** (nsub - 1), 2: 144 if tier == "quick" else 576, 3: 216 if tier == "quick" else 13824,
+            4: 1296}[u["length"]] * 5
 
 
 # ------------------------------------------------------------------------------------------------ execution
@@ -336,12 +386,112 @@ def check_text(cname, beh, fields, single, text, pre=""):
     return bad, evals[0]
 
 
+# ---- family F: the documented ways of handing text to the constructor ("a string, or any object that returns a line of
+# input each time, normally a file"; "encoding: when parsing strings, interpret them in this encoding")
+
+FORMS = ["str", "bytes", "lines-nl", "lines-nonl", "bytes-lines", "tuple-lines", "generator", "generator-bytes", "StringIO",
+         "BytesIO", "textfile", "kw-sequence", "kw-sequence-lines", "kw-sequence-generator", "kw-sequence-BytesIO",
+         "bytes-other-encoding", "BytesIO-other-encoding",
+         "bytes-lines-other-encoding", "iter_paragraphs", "iter_paragraphs-lines", "iter_paragraphs-BytesIO"]
+OTHER_ENCODINGS = ["latin-1", "iso-8859-5", "euc-jp"]
+
+
+def other_encoding(text):
+    """a non-UTF-8 encoding that can write the text (the token representatives are Latin, Cyrillic or CJK letters)"""
+    for enc in OTHER_ENCODINGS:
+        try:
+            text.encode(enc)
+            return enc
+        except UnicodeEncodeError:
+            pass
+    raise AssertionError("no 8-bit encoding for %r" % (text,))
+
+
+def _generate(lines):
+    for line in lines:
+        yield line
+
+
+def construct(cls, text, form):
+    """cls(...) of the harness-written text, handed over in the given form (None / 'str': the text itself)"""
+    if form is None or form == "str":
+        return cls(text)
+    if form == "bytes":
+        return cls(text.encode("utf-8"))
+    if form == "lines-nl":
+        return cls(text.splitlines(True))
+    if form == "lines-nonl":
+        return cls(text.split("\n")[:-1])
+    if form == "bytes-lines":
+        return cls(text.encode("utf-8").splitlines(True))
+    if form == "tuple-lines":
+        return cls(tuple(text.splitlines(True)))
+    if form == "generator":
+        return cls(_generate(text.splitlines(True)))
+    if form == "generator-bytes":
+        return cls(_generate(text.encode("utf-8").split(b"\n")[:-1]))
+    if form == "StringIO":
+        return cls(io.StringIO(text))
+    if form == "BytesIO":
+        return cls(io.BytesIO(text.encode("utf-8")))
+    if form == "textfile":
+        return cls(io.TextIOWrapper(io.BytesIO(text.encode("utf-8")), encoding="utf-8"))
+    if form == "kw-sequence":
+        return cls(sequence=text)
+    if form == "kw-sequence-lines":
+        return cls(sequence=text.splitlines(True))
+    if form == "kw-sequence-generator":
+        return cls(sequence=_generate(text.splitlines(True)))
+    if form == "kw-sequence-BytesIO":
+        return cls(sequence=io.BytesIO(text.encode("utf-8")), encoding="utf-8")
+    if form == "bytes-other-encoding":
+        enc = other_encoding(text)
+        return cls(text.encode(enc), encoding=enc)
+    if form == "BytesIO-other-encoding":
+        enc = other_encoding(text)
+        return cls(io.BytesIO(text.encode(enc)), encoding=enc)
+    if form == "bytes-lines-other-encoding":
+        enc = other_encoding(text)
+        return cls(text.encode(enc).splitlines(True), encoding=enc)
+    if form in ("iter_paragraphs", "iter_paragraphs-lines", "iter_paragraphs-BytesIO"):
+        # two paragraphs: the one under test and a second one that must not leak into it
+        more = text + "\nOrigin: second paragraph\n"
+        src = {"iter_paragraphs": more, "iter_paragraphs-lines": more.splitlines(True),
+               "iter_paragraphs-BytesIO": io.BytesIO(more.encode("utf-8"))}[form]
+        ps = list(cls.iter_paragraphs(src))
+        if len(ps) != 2 or type(ps[0]) is not cls or ps[1].get("Origin") != "second paragraph":
+            raise ValueError("iter_paragraphs gave %r" % (ps,))
+        return ps[0]
+    raise AssertionError(form)
+
+
+def form_bases(cname, seed):
+    """family F: the (field subset, record count) pairs of one class; -> list of (dir, fields)"""
+    table = TABLE[cname]
+    n = len(table)
+    if cname == "PdiffIndex":
+        subsets = [[1], list(range(n)), [0, 9, 13]]      # History alone; all 14; Current + SHA256-Patches + X-Unmerged-SHA256-Download
+    else:
+        subsets = [[0], list(range(n)), [1, 3]]
+    out = []
+    for sub in subsets:
+        for nrec in (2, 3):
+            fields = [[spell(table[fi][0], seed), table[fi][1], rotating_records(len(table[fi][1]), fi, nrec, seed)] for fi in sub]
+            d = "text-multi"
+            if cname == "PdiffIndex" and any(len(table[fi][1]) == 2 for fi in sub):
+                d = "text-natural"
+                fields = [[nm, s, recs[:1] if len(s) == 2 else recs] for nm, s, recs in fields]
+            out.append((d, fields))
+    return out
+
+
 def exec_case(case, stats=None):
     """-> list of (sig, expected, observed).  stats: optional Counter receiving outcome classes."""
     cname, beh = case["cls"], case["beh"]
     cfg = cfg_name(cname, beh)
     cls = _cls(cname)
     d = case["dir"]
+    form = case.get("form")           # family F: how the text is handed to the constructor / how the dump is taken
     fields = [(n, list(s), [list(r) for r in recs]) for n, s, recs in case["fields"]]
     present = set(n.lower() for n, _s, _r in fields)
     structured = set(n.lower() for n, _s in TABLE[cname])
@@ -351,17 +501,22 @@ def exec_case(case, stats=None):
 
     def note(k):
         if stats is not None:
-            stats["%s %s: %s" % (cfg, d, k)] += 1
+            if form:
+                stats["input form %s (all class configurations): %s" % (form, k)] += 1
+            else:
+                stats["%s %s: %s" % (cfg, d, k)] += 1
 
     def finish(bad):
         if stats is not None:
             stats["__evaluations__"] += evals[0]
+        if form:        # a failure that needs this form is a different bug: it gets its own signature
+            bad = [(b[0].replace("mv/%s/" % cfg, "mv/%s/in-%s/" % (cfg, form), 1),) + tuple(b[1:]) for b in bad]
         return bad
 
     # ---- 1. construct
     try:
         if d.startswith("text-"):
-            p = cls(make_text(case))
+            p = construct(cls, make_text(case), form)
         else:
             p = cls({"Origin": "x"})
             for n, s, recs in fields:
@@ -414,6 +569,31 @@ def exec_case(case, stats=None):
     # ---- 4./5. re-parse gives the same records in the same order; the size column
     bad, n = check_text(cname, beh, fields, single, text)
     evals[0] += n
+    if form and not bad:
+        # ---- 6. (family F) the way the text came in / the dump goes out makes no difference: the paragraph dumps to the very
+        # text that the plain-str form dumps to, whether dump() returns it or writes it to a binary / text file object
+        evals[0] += 3
+        try:
+            ref = cls(make_text(case))
+            if beh is not None:
+                ref.size_field_behavior = beh
+            ref_text = ref.dump()
+        except Exception as e:
+            return finish([("mv/%s/form/reference-raises/%s" % (cfg, type(e).__name__), "cls(str) dumps", _exc(e))])
+        if text != ref_text:
+            bad.append(("mv/%s/form/dump-differs-from-str-form" % cfg, ref_text, text))
+        enc = other_encoding(make_text(case)) if form.endswith("-other-encoding") else "utf-8"
+        for how, want_out in (("fd-bytes", text.encode(enc)), ("fd-text", text)):
+            fd = io.BytesIO() if how == "fd-bytes" else io.StringIO()
+            try:
+                r = p.dump(fd) if how == "fd-bytes" else p.dump(fd, text_mode=True)
+            except Exception as e:
+                bad.append(("mv/%s/dump/%s/raises/%s" % (cfg, how, type(e).__name__), "dump(fd) writes the text", _exc(e)))
+                continue
+            if r is not None:
+                bad.append(("mv/%s/dump/%s/returns" % (cfg, how), None, r))
+            elif fd.getvalue() != want_out:
+                bad.append(("mv/%s/dump/%s/text" % (cfg, how), want_out, fd.getvalue()))
     note("violating" if bad else "round-trips")
     # one report per signature
     seen = set()
@@ -431,8 +611,9 @@ def exec_case(case, stats=None):
 # mutable and meant to be edited in place, so "the paragraph" that a dump must render is whatever the object holds at that
 # moment: everything the statement says about a dump is demanded of every dump of the history.
 
-H_DEPTH = {"quick": 2, "thorough": 3}
-H_DIRS = ["assign-list", "text-multi"]
+H_DEPTH = {"quick": 2, "thorough": 4}
+H_DIRS = {"quick": ["assign-list", "text-multi"], "thorough": ["assign-list", "text-multi", "text-aligned", "text-mixed"]}
+H_INITIALS = {"quick": 2, "thorough": 3}
 H_OPS = ["append-longer", "del-longest", "grow-size", "shrink-size", "extend-two", "replace-record", "reassign",
          "del-field", "switch-behavior", "other:append-longer", "other:del-field"]
 # what kind of edit the last one was (part of the signature: a different way of losing track of an edit is a different bug)
@@ -448,13 +629,16 @@ def digits(n, seed):
     return src[:n]
 
 
-def h_initials(nsub, seed):
-    """the two initial record lists of the edited field: sizes of 1 and 2 digits; of 17 digits (wider than 16) and 1"""
+def h_initials(nsub, seed, tier="quick"):
+    """the initial record lists of the edited field: sizes of 1 and 2 digits; of 17 digits (wider than 16) and 1;
+    thorough also: three records, the two longest sizes of equal width (2, 2, 1 digits)"""
     toks, sizes = symbols(seed)
 
     def rec(i, size):
         return [size if j == 1 else toks[(i + j) % 4] for j in range(nsub)]
-    return [[rec(0, sizes[0]), rec(1, sizes[1])], [rec(2, sizes[2]), rec(3, sizes[0])]]
+    out = [[rec(0, sizes[0]), rec(1, sizes[1])], [rec(2, sizes[2]), rec(3, sizes[0])],
+           [rec(1, sizes[1]), rec(3, sizes[1][::-1]), rec(0, sizes[0])]]
+    return out[:H_INITIALS[tier]]
 
 
 def h_new_record(nsub, k, size, seed):
@@ -583,7 +767,7 @@ def exec_history(case, stats=None):
         return [b for b in bad if not (b[0] in seen or seen.add(b[0]))]
 
     try:
-        if d == "text-multi":
+        if d.startswith("text-"):
             p = cls(make_text(case))
         else:
             p = cls({"Origin": "x"})
@@ -690,10 +874,12 @@ def run_unit(u, tier, seed):
         name, subs = table[fi]
         ofi = (fi + 1) % len(table)
         oname, osubs = table[ofi]
-        for initial in h_initials(len(subs), seed):
+        for ii, initial in enumerate(h_initials(len(subs), seed, tier)):
+            if u.get("init", ii) != ii:
+                continue
             model = [[spell(name, seed), subs, initial], [spell(oname, seed), osubs, rotating_records(len(osubs), ofi, 2, seed)]]
             hs = h_histories(model, beh, cname, seed, H_DEPTH[tier])
-            for d in H_DIRS:
+            for d in ([u["dir"]] if "dir" in u else H_DIRS[tier]):
                 for ops in hs:
                     case = {"family": "H", "cls": cname, "beh": beh, "dir": d, "ops": ops, "fields": model}
                     part.states += 1
@@ -709,15 +895,26 @@ def run_unit(u, tier, seed):
                         part.extra["H edit " + op[0]] += 1
                     part.max_depth = max(part.max_depth, len(ops))
             part.sample(case)
+    elif u["family"] == "F":
+        for d, fields in form_bases(cname, seed):
+            part.states += 1
+            part.transitions += 1
+            for form in FORMS:
+                case = {"family": "F", "cls": cname, "beh": beh, "dir": d, "fields": fields, "form": form}
+                run(case)
+                part.extra["F cases"] += 1
+                part.extra["F input form " + form] += 1
+            part.max_depth = max(part.max_depth, len(fields))
+        part.sample(case)
     elif u["family"] == "S":
         for sub in u["subsets"]:
             part.states += 1
             part.extra["S subsets"] += 1
             part.max_depth = max(part.max_depth, len(sub))
-            for nrec in (1, 2, 3):
+            for nrec, shift in s_lists(tier):
                 part.states += 1
                 part.transitions += 1
-                fields = [[spell(table[fi][0], seed), table[fi][1], rotating_records(len(table[fi][1]), fi, nrec, seed)]
+                fields = [[spell(table[fi][0], seed), table[fi][1], rotating_records(len(table[fi][1]), fi + shift, nrec, seed)]
                           for fi in sub]
                 dirs = list(DIRS_ANY)
                 if nrec == 1:
@@ -763,7 +960,7 @@ def replay(case):
 
 
 def repro_py(case):
-    if case["family"] == "H":
+    if case["family"] == "H" or case.get("form"):
         return "from mc.props import c12\ncase = %r\nbad = c12.replay(case)\nassert not bad, bad\n" % (case,)
     lines = ["from debian import deb822", "case = %r" % (case,)]
     if case["dir"].startswith("text-"):
